@@ -29,7 +29,7 @@ def _lib_classes():
     lib = load_lib()
     m = lib.mitx
     names = ['StringGrader', 'FormulaGrader', 'NumericalGrader', 'MatrixGrader',
-             'SingleListGrader', 'ListGrader', 'IntervalGrader', 'SumGrader',
+             'SingleListGrader', 'ListGrader', 'IntervalGrader', 'SumGrader', 'IntegralGrader',
              'RealInterval', 'IntegerRange', 'DiscreteSet', 'ComplexRectangle', 'ComplexSector',
              'RandomFunction', 'SpecificFunctions', 'DependentSampler',
              'RealVectors', 'ComplexVectors', 'RealMatrices', 'ComplexMatrices',
